@@ -272,6 +272,7 @@ func checkC01(c *Ctx) {
 		}
 	}
 	c.Min("R6", "leave computations", n6, 1)
+	checkInPlaceFilter(c, "R6")
 }
 
 func containsAny(s string, subs ...string) bool {
